@@ -550,6 +550,26 @@ func Eq(a, b *Term) *Term {
 			return Not(a)
 		}
 	}
+	// ite(c, k1, k2) == k  with constants
+	if a.sort == SInt {
+		for _, pr := range [][2]*Term{{a, b}, {b, a}} {
+			x, k := pr[0], pr[1]
+			if x.op == OIte && k.op == OConst && x.args[1].op == OConst && x.args[2].op == OConst {
+				t1 := x.args[1].k.Cmp(k.k) == 0
+				t2 := x.args[2].k.Cmp(k.k) == 0
+				switch {
+				case t1 && t2:
+					return True()
+				case t1:
+					return x.args[0]
+				case t2:
+					return Not(x.args[0])
+				default:
+					return False()
+				}
+			}
+		}
+	}
 	if a.id > b.id {
 		a, b = b, a
 	}
